@@ -689,6 +689,11 @@ func (vfs *MemFS) Remove(name string) error {
 		return &fs.PathError{Op: op, Path: name, Err: err}
 	}
 
+	if child == node(parent) {
+		// the root directory can't be removed.
+		return &fs.PathError{Op: op, Path: name, Err: vfs.err.InvalidArgument}
+	}
+
 	verifYield(&parent.mu, true)
 	parent.mu.Lock()
 	defer parent.mu.Unlock()
@@ -739,11 +744,21 @@ func (vfs *MemFS) RemoveAll(path string) error {
 		return &fs.PathError{Op: op, Path: path, Err: err}
 	}
 
+	if child == node(parent) {
+		// the root directory can't be removed : its content is removed.
+		err = vfs.removeAll(parent)
+		if err == nil {
+			err = vfs.err.InvalidArgument
+		}
+
+		return &fs.PathError{Op: op, Path: path, Err: err}
+	}
+
 	verifYield(&parent.mu, true)
 	parent.mu.Lock()
 	defer parent.mu.Unlock()
 
-	if c, ok := child.(*dirNode); ok && len(c.children) != 0 {
+	if c, ok := child.(*dirNode); ok {
 		err = vfs.removeAll(c)
 		if err != nil {
 			return &fs.PathError{Op: op, Path: path, Err: err}
@@ -760,16 +775,23 @@ func (vfs *MemFS) RemoveAll(path string) error {
 	return nil
 }
 
+// removeAll removes the content of the directory parent.
+// An empty directory can be removed whatever its permissions, reading and modifying
+// a non empty one requires the read, write and lookup permissions.
 func (vfs *MemFS) removeAll(parent *dirNode) error {
 	verifYield(&parent.mu, true)
 	parent.mu.Lock()
 	defer parent.mu.Unlock()
 
-	if ok := parent.checkPermission(avfs.OpenWrite, vfs.User()); !ok {
+	if len(parent.children) == 0 {
+		return nil
+	}
+
+	if ok := parent.checkPermission(avfs.OpenRead|avfs.OpenWrite|avfs.OpenLookup, vfs.User()); !ok {
 		return vfs.err.PermDenied
 	}
 
-	for _, child := range parent.children {
+	for name, child := range parent.children {
 		if c, ok := child.(*dirNode); ok {
 			err := vfs.removeAll(c)
 			if err != nil {
@@ -777,6 +799,9 @@ func (vfs *MemFS) removeAll(parent *dirNode) error {
 			}
 		}
 
+		// the entry is removed as soon as its content is, so that a failure
+		// further on leaves a consistent directory.
+		parent.removeChild(name)
 		child.delete()
 	}
 
@@ -800,6 +825,11 @@ func (vfs *MemFS) Rename(oldpath, newpath string) error {
 		return &os.LinkError{Op: op, Old: oldpath, New: newpath, Err: nErr}
 	}
 
+	if oChild == node(oParent) || nChild != nil && nChild == node(nParent) {
+		// the root directory can't be renamed or replaced.
+		return &os.LinkError{Op: op, Old: oldpath, New: newpath, Err: vfs.err.InvalidArgument}
+	}
+
 	verifYield(&oParent.mu, true)
 	oParent.mu.Lock()
 	defer oParent.mu.Unlock()
@@ -818,7 +848,7 @@ func (vfs *MemFS) Rename(oldpath, newpath string) error {
 		}
 	}
 
-	_, oIsDir := oChild.(*dirNode)
+	oDir, oIsDir := oChild.(*dirNode)
 
 	if oPI.Path() == nPI.Path() {
 		if oIsDir && vfs.Clean(oldpath) == vfs.Clean(newpath) && vfs.OSType() != avfs.OsWindows {
@@ -829,10 +859,23 @@ func (vfs *MemFS) Rename(oldpath, newpath string) error {
 		return nil
 	}
 
-	if _, nIsDir := nChild.(*dirNode); !nIsDir && oIsDir &&
-		strings.HasPrefix(nPI.Path(), oPI.Path()+string(vfs.PathSeparator())) {
+	_, nIsDir := nChild.(*dirNode)
+
+	if !nIsDir && oIsDir && strings.HasPrefix(nPI.Path(), oPI.Path()+string(vfs.PathSeparator())) {
 		// A directory can't be moved into itself.
 		return &os.LinkError{Op: op, Old: oldpath, New: newpath, Err: vfs.err.InvalidArgument}
+	}
+
+	if nChild == nil && oIsDir && nParent != oParent {
+		// Moving a directory to another directory modifies the directory itself (its ".." entry).
+		verifYield(&oDir.mu, false)
+		oDir.mu.RLock()
+		ok := oDir.checkPermission(avfs.OpenWrite, vfs.User())
+		oDir.mu.RUnlock()
+
+		if !ok {
+			return &os.LinkError{Op: op, Old: oldpath, New: newpath, Err: vfs.err.PermDenied}
+		}
 	}
 
 	switch nc := nChild.(type) {
